@@ -70,11 +70,25 @@ def bounds(tier):
     }
 
 
+class SetupFailed(Exception):
+    """Parsing one of the fixed, well-formed starting documents failed or gave something else than before: operations on
+    earlier entries have leaked into a later parse (entries are not independent mappings)."""
+
+
+_EXPECTED_INITIAL = {1: [("a", "va"), ("c", "vc"), ("b", "vb")], 2: [("title", "T"), ("A", "x")], 3: []}
+
+
 def fresh(init):
     if init == 0:
         e = Entry("article", "k", [])
     else:
-        e = bibtexparser.parse_string(PARSED[init - 1]).entries[0]
+        try:
+            e = bibtexparser.parse_string(PARSED[init - 1]).entries[0]
+            got = [(f.key, f.value) for f in e.fields]
+        except Exception as ex:
+            raise SetupFailed(f"parse_string({PARSED[init - 1]!r}) raised {type(ex).__name__}: {ex}")
+        if got != _EXPECTED_INITIAL[init]:
+            raise SetupFailed(f"parse_string({PARSED[init - 1]!r}) gave fields {got!r}")
     d = {f.key: f.value for f in e.fields}
     return e, d
 
@@ -166,7 +180,16 @@ def replay_hist(hist):
 
 def step(hist, op, acc, observe=True):
     """Execute hist then op on fresh objects with all oracles on the last step. Returns (entry, dict, ok)."""
-    e, d = replay_hist(hist)
+    try:
+        e, d = replay_hist(hist)
+    except SetupFailed as sf:
+        acc.violation(
+            {"oracle": "entries_are_independent", "where": "later parse"},
+            {"case": {"history": hist, "op": list(op)}, "observed": str(sf), "expected": "the fields the document states"},
+            size=len(hist),
+        )
+        e, d = Entry("article", "k", []), {}
+        return e, d, False
     case = {"history": hist, "op": list(op)}
     r, m = do(e, d, op)
     ok = True
@@ -209,7 +232,11 @@ def step(hist, op, acc, observe=True):
 def initial(tier, acc):
     out = []
     for i in range(len(PARSED) + 1):
-        e, d = fresh(i)
+        try:
+            e, d = fresh(i)
+        except SetupFailed as sf:
+            acc.violation({"oracle": "entries_are_independent", "where": "later parse"}, {"case": {"history": [i], "op": None}, "observed": str(sf), "expected": "the fields the document states"})
+            continue
         if not order_ok(e, d):
             acc.harness_error("initial entry disagrees with its own fields")
         out.append((engine.h(state_of(e)), [i]))
@@ -217,7 +244,11 @@ def initial(tier, acc):
 
 
 def expand(hist, tier, acc):
-    e0, _ = replay_hist(hist)
+    try:
+        e0, _ = replay_hist(hist)
+    except SetupFailed as sf:
+        acc.violation({"oracle": "entries_are_independent", "where": "later parse"}, {"case": {"history": hist, "op": None}, "observed": str(sf), "expected": "the fields the document states"}, size=len(hist))
+        return
     k0 = engine.h(state_of(e0))
     acc.states.add(k0)
     for op in MUT:
